@@ -261,6 +261,15 @@ func c03Check(c *fw.Ctx, id, tr string, in []byte, reduceFrom []byte) {
 				if nout, nerr := rtParsePrint(norm); nerr == nil {
 					if v, _, _ := c03Oracle(norm, nout); v == "violation" {
 						preds = textPredicates(norm)
+					} else {
+						// cured by normalising the line endings: only those predicates name the cause
+						var le []string
+						for _, p := range preds {
+							if p == "crlf" || p == "whitespace-only-line" {
+								le = append(le, p)
+							}
+						}
+						preds = le
 					}
 				}
 			}
